@@ -18,6 +18,8 @@ import (
 type child struct {
 	cmd  string
 	args []string
+	tier string // tier handed to the child ("" = the tier of this run)
+	seed uint64 // added to the run's seed
 }
 
 var reportSep = regexp.MustCompile(`(?m)^==================\n`)
@@ -75,11 +77,15 @@ func runMain() {
 	// --- race-detector runs of the concurrent harnesses ---
 	// quick: the scheduler harness and the concurrent subset of the query-event harness (Parallel resources with
 	// overlapping query requests, restart histories, directed and racy schedules); thorough: the full harnesses
-	children := []child{{"sched", []string{"-prop", "C16"}}}
+	children := []child{{cmd: "sched", args: []string{"-prop", "C16"}}}
 	if o.Tier == "thorough" {
-		children = append(children, child{"kv", nil}, child{"index", []string{"-prop", "C13"}}, child{"req", []string{"-prop", "C04"}}, child{"query", nil})
+		// the store harness at its thorough size (160,000 mostly sequential histories) takes over half an hour under the
+		// race detector on a loaded machine: its quick-size run, which has all the concurrent and isolation sections,
+		// is run with three seeds instead
+		children = append(children, child{cmd: "kv", tier: "quick"}, child{cmd: "kv", tier: "quick", seed: 1}, child{cmd: "kv", tier: "quick", seed: 2},
+			child{cmd: "index", args: []string{"-prop", "C13"}}, child{cmd: "req", args: []string{"-prop", "C04"}}, child{cmd: "query"})
 	} else {
-		children = append(children, child{"query", []string{"-race-subset"}}, child{"index", []string{"-race-subset"}})
+		children = append(children, child{cmd: "query", args: []string{"-race-subset"}}, child{cmd: "index", args: []string{"-race-subset"}})
 	}
 	goflags := os.Getenv("GOFLAGS") // the driver may point the build at a scratch copy through -modfile (VERIF_REPO)
 	if goflags == "" {
@@ -88,7 +94,11 @@ func runMain() {
 	env := append(os.Environ(), "CGO_ENABLED=1", "GOFLAGS="+goflags, "GOPROXY=off", "GOSUMDB=off", "GOTOOLCHAIN=local")
 	scenarios := 0
 	for _, ch := range children {
-		bin := filepath.Join(o.Out, "race_"+ch.cmd)
+		tag := ch.cmd
+		if ch.seed > 0 {
+			tag += fmt.Sprint(ch.seed)
+		}
+		bin := filepath.Join(o.Out, "race_"+tag)
 		b := exec.Command("go", "build", "-race", "-tags", "verif", "-o", bin, "./cmd/"+ch.cmd)
 		b.Dir = *hdir
 		b.Env = env
@@ -96,22 +106,26 @@ func runMain() {
 			impl = append(impl, ImplViolation{What: "race-build: cannot build " + ch.cmd + " with -race: " + string(out), Desc: ch.cmd, Tags: []string{"race-build"}})
 			continue
 		}
-		outd := filepath.Join(o.Out, "child_"+ch.cmd)
+		outd := filepath.Join(o.Out, "child_"+tag)
 		n := "120"
 		if o.Tier == "thorough" {
 			n = "1200"
 		}
-		args := append([]string{"-tier", o.Tier, "-seed", fmt.Sprint(o.Seed), "-out", outd}, ch.args...)
+		tier := o.Tier
+		if ch.tier != "" {
+			tier = ch.tier
+		}
+		args := append([]string{"-tier", tier, "-seed", fmt.Sprint(o.Seed + ch.seed), "-out", outd}, ch.args...)
 		if ch.cmd == "sched" {
 			args = append(args, "-n", n)
 		}
 		c := exec.Command(bin, args...)
-		c.Env = append(env, "GORACE=log_path="+filepath.Join(o.Out, "racelog_"+ch.cmd)+" halt_on_error=0 exitcode=0")
+		c.Env = append(env, "GORACE=log_path="+filepath.Join(o.Out, "racelog_"+tag)+" halt_on_error=0 exitcode=0")
 		done := make(chan error, 1)
 		go func() { _, err := c.CombinedOutput(); done <- err }()
 		select {
 		case <-done:
-		case <-time.After(25 * time.Minute):
+		case <-time.After(60 * time.Minute):
 			c.Process.Kill()
 			impl = append(impl, ImplViolation{What: "race-run: " + ch.cmd + " did not finish", Desc: ch.cmd, Tags: []string{"race-run"}})
 		}
@@ -121,11 +135,11 @@ func runMain() {
 				var k int
 				fmt.Sscan(string(mm[1]), &k)
 				scenarios += k
-				dist["race-runs-"+ch.cmd] = k
+				dist["race-runs-"+tag] = k
 			}
 		}
-		reps, total := raceReports(filepath.Join(o.Out, "racelog_"+ch.cmd) + "*")
-		dist["race-reports-"+ch.cmd] = total
+		reps, total := raceReports(filepath.Join(o.Out, "racelog_"+tag) + ".*")
+		dist["race-reports-"+tag] = total
 		for _, r := range reps {
 			impl = append(impl, ImplViolation{What: "data-race: the race detector reported an unsynchronised conflicting access in go-res (harness " + ch.cmd + ")", Desc: map[string]interface{}{"harness": ch.cmd, "seed": o.Seed, "report": r}, Tags: []string{"data-race"}})
 		}
